@@ -964,7 +964,12 @@ class C14(Check):
                                                                       "lifetime": self.val(rng, 16), "reachable": self.val(rng, 32), "retrans": self.val(rng, 32), "opts": opts()}, {"k": "none"}])
             if w == "toobig": return self._stack([E("ipv6"), v6, ic(2), {"k": "toobig6", "mtu": self.val(rng, 32)}, self.bytes_layer(rng, hi=100)])
             if w == "timeex": return self._stack([E("ipv6"), v6, ic(3), {"k": "timeex6"}, self.bytes_layer(rng, hi=100)])
-            return self._stack([E("ipv6"), v6, ic(1), {"k": "unreach6", "unused": self.val(rng, 32)}, self.bytes_layer(rng, hi=rng.choice([20, 100]))])
+            # an ICMPv6 error quotes the offending datagram: >= 44 quoted bytes are parsed as IPv6 (icmpv6.py unreach.parse), so an
+            # opaque quote stays below that and a long one is a real IPv6 datagram
+            if rng.random() < 0.5:
+                return self._stack([E("ipv6"), v6, ic(1), {"k": "unreach6", "unused": self.val(rng, 32)}, self.bytes_layer(rng, hi=43)])
+            inner = dict(v6, nh=rng.choice([99, 253]), srcip=self.rbytes(rng, 16).hex(), tc=self.val(rng, 8))
+            return self._stack([E("ipv6"), v6, ic(1), {"k": "unreach6", "unused": self.val(rng, 32)}, inner, self.bytes_layer(rng, n=rng.choice([4, 8, 60]))])
         if c == "igmp":
             if rng.random() < 0.4:
                 gs = [{"type": rng.randint(1, 6), "addr": self.val(rng, 32), "srcs": [self.val(rng, 32) for _ in range(rng.choice([0, 1, 3]))], "aux": self.rbytes(rng, rng.choice([0, 0, 4])).hex()}
